@@ -301,6 +301,7 @@ def main2(prop, cfg, tier, seed, scratch, instr_stats, replay_mode, t_start):
                 pending.append((lo, hi))
         wid = 0
         deaths = 0
+        hangs = 0
         phase_deadline = time.time() + budget + 120
         while pending:
             batch, pending = pending[:NCPU], pending[NCPU:]
@@ -353,8 +354,11 @@ def main2(prop, cfg, tier, seed, scratch, instr_stats, replay_mode, t_start):
                     hung = p.returncode == 3 and any(r.get("type") == "violation" and r["replay"].get("class") == "hang" and r["replay"].get("index") == idx for r in recs)
                     if hung:
                         # the worker's own watchdog reported the run as a hang and stopped: resume after it
-                        if deaths <= 60 and idx + 1 < hi and time.time() < phase_deadline - 30:
+                        hangs += 1
+                        if hangs <= 8 and idx + 1 < hi and time.time() < phase_deadline - 30:
                             pending.append((idx + 1, hi))
+                        elif idx + 1 < hi:
+                            notes.append("phase %s: more than 8 runs hung; the rest of range %d-%d was not explored" % (engine, idx + 1, hi))
                         continue
                     is_race = race and p.returncode == 66
                     cls = "data-race" if is_race else "worker-died"
